@@ -31,22 +31,25 @@ def gen_task_cases(ctx):
 
 def cli_cases(ctx):
     """targets: 1 ok1, 2 ok2, 3 bad (exit 3), 4 pok (pipeline ok), 5 pbad (pipeline with a failing stage), 6 allowbad (fails, allowed)"""
-    names = {1: "ok1", 2: "ok2", 3: "bad", 4: "pok", 5: "pbad", 6: "allowbad"}
+    names = {1: "ok1", 2: "ok2", 3: "bad", 4: "pok", 5: "pbad", 6: "allowbad", 7: "ppar"}
     doc = {"tasks": {
         "ok1": {"command": ['echo ok1 >> "$PROJ/trace"']}, "ok2": {"command": ['echo ok2 >> "$PROJ/trace"']},
         "bad": {"command": ['echo bad >> "$PROJ/trace"; exit 3']},
         "allowbad": {"command": ['echo allowbad >> "$PROJ/trace"; exit 4'], "allow_failure": True},
         "s1": {"command": ["true"]}, "sbad": {"command": ["exit 9"]},
-        "pokm": {"command": ['echo pok >> "$PROJ/trace"']}, "pbadm": {"command": ['echo pbad >> "$PROJ/trace"']}},
+        "pokm": {"command": ['echo pok >> "$PROJ/trace"']}, "pbadm": {"command": ['echo pbad >> "$PROJ/trace"']},
+        "pparm": {"command": ['echo ppar >> "$PROJ/trace"']}, "qfail": {"command": ["exit 3"]}, "slowok": {"command": ["sleep 0.4"]}, "slowok2": {"command": ["sleep 0.2"]}},
         "pipelines": {"pok": [{"task": "pokm"}, {"task": "s1", "depends_on": ["pokm"]}],
-                      "pbad": [{"task": "pbadm"}, {"task": "sbad", "depends_on": ["pbadm"]}, {"task": "s1", "depends_on": ["sbad"]}]}}
+                      "pbad": [{"task": "pbadm"}, {"task": "sbad", "depends_on": ["pbadm"]}, {"task": "s1", "depends_on": ["sbad"]}],
+                      # a failure followed by parallel stages that succeed LATER: the pipeline still failed
+                      "ppar": [{"task": "pparm"}, {"task": "qfail", "depends_on": ["pparm"]}, {"task": "slowok", "depends_on": ["pparm"]}, {"task": "slowok2", "depends_on": ["pparm"]}]}}
     jobs = []
     seqs = []
     for k in (1, 2, 3):
-        seqs += list(itertools.product([1, 2, 3, 4, 5, 6], repeat=k))
+        seqs += list(itertools.product([1, 2, 3, 4, 5, 6, 7], repeat=k))
     # a pipeline target is named at most once per command line: the statuses of a graph are never reset, so a second
     # run of the same graph object does nothing (recorded in DESIGN.md section 7 as outside the properties)
-    seqs = [s for s in seqs if all(s.count(p) <= 1 for p in (4, 5))]
+    seqs = [s for s in seqs if all(s.count(p) <= 1 for p in (4, 5, 7))]
     rng = vlib.rng_for(ctx.seed, "C07cli")
     if ctx.tier != "thorough":
         seqs = [s for s in seqs if len(s) <= 2] + rng.sample([s for s in seqs if len(s) == 3], 60)
@@ -103,8 +106,8 @@ def run(ctx):
         if r["timeout"] or clilib.crashed(r):
             res.violations.append({"class": None, "what": "taskctl hung or crashed while running targets", "case": j, "observed": r})
             continue
-        ran = [{"ok1": 1, "ok2": 2, "bad": 3, "pok": 4, "pbad": 5, "allowbad": 6}[l] for l in (r["files"].get("trace") or "").split()]
-        items.append("(%d%%N, targets_ok [3; 5] %s %s %d)" % (j["id"], vlib.clist(j["targets"]), vlib.clist(ran), r["rc"]))
+        ran = [{"ok1": 1, "ok2": 2, "bad": 3, "pok": 4, "pbad": 5, "allowbad": 6, "ppar": 7}[l] for l in (r["files"].get("trace") or "").split()]
+        items.append("(%d%%N, targets_ok [3; 5; 7] %s %s %d)" % (j["id"], vlib.clist(j["targets"]), vlib.clist(ran), r["rc"]))
         if len(j["targets"]) >= 2:
             res.nontrivial_keys.add(json.dumps([j["targets"], j["form"]]))
     badcli = set()
